@@ -10,7 +10,7 @@ import (
 func init() {
 	register(&PropDef{
 		ID: "C10", Level: "exploration", Quick: 12000, Thorough: 400000, QuickCap: 100,
-		Rule: "each run = one store and one wall-clock configuration (baseline: strictly increasing; fault configurations, counted separately: stalled/coarse clock, backward step), 3-40 back-to-back requests on 2-3 names: writes by every protocol, compose, copy-to, patches with one/many/zero fields and with bodies that also name read-only fields (md5Hash, generation, size, name, bucket), reads, listings, failing requests (bad MD5, failing preconditions), delete and re-create, file-store restarts; laws checked over the whole history: fresh and greater generation per content write and metageneration 1, patch => metageneration+1 with only the supplied fields merged and generation/content/size/MD5 unchanged, nothing else changes either number, and headers / upload responses / metadata GETs / listings agree; distinct = hash of (store, clock mode, shapes); non-trivial = at least 2 content writes to one name",
+		Rule: "each run = one store and one wall-clock configuration (baseline: strictly increasing, advancing by nanoseconds, sub-microsecond steps or up to milliseconds per read, drawn per run; fault configurations, counted separately: stalled/coarse clock, backward step), 3-40 back-to-back requests on 2-3 names: writes by every protocol, compose, copy-to, patches with one/many/zero fields and with bodies that also name read-only fields (md5Hash, generation, metageneration, size, name, bucket, timeCreated), reads, listings, failing requests (bad MD5, failing preconditions), delete and re-create, file-store restarts; laws checked over the whole history: fresh and greater generation per content write and metageneration 1, patch => metageneration+1 with only the supplied fields merged and generation/content/size/MD5 unchanged, nothing else changes either number, and headers / upload responses / metadata GETs / listings agree; distinct = hash of (store, clock mode, shapes); non-trivial = at least 2 content writes to one name",
 		Real: []string{"gcsemu memstore.Add/UpdateMeta/Copy, filestore.Add/UpdateMeta/ReadMeta (mtime as generation), upload/patch/compose/copy handlers, listing"},
 		Stub: []string{"wall clock (simulator-owned: increasing, stalled or stepping back)", "HTTP connections (recorder)"},
 		Assume: []string{"generations are opaque ordered tokens: only freshness, order and agreement between reporting places are checked", "no JSON null is sent in patches"},
@@ -30,6 +30,7 @@ func runC10(r *Run) {
 	clk := NewClock(0, 1_700_000_000_000_000_000)
 	cs := r.T.S("clock")
 	stallLeft := 0
+	scale := 0
 	clk.WallTick = func() int64 {
 		switch mode {
 		case 1:
@@ -49,7 +50,10 @@ func runC10(r *Run) {
 				return -int64(1 + cs.Intn(3_000_000_000))
 			}
 		}
-		d := int64(1 + cs.Intn(2_000_000))
+		if scale == 0 {
+			scale = []int{2_000_000, 3, 900, 5_000_000}[cs.Intn(4)] // ns .. ms between two clock reads
+		}
+		d := int64(1 + cs.Intn(scale))
 		r.SimWallNs += d
 		return d
 	}
@@ -101,6 +105,8 @@ func runC10(r *Run) {
 					r.Probe("c10.patch_readonly_fields")
 					body["md5Hash"] = "AAAAAAAAAAAAAAAAAAAAAA=="
 					body["generation"] = "5"
+					body["metageneration"] = fmt.Sprint(1 + d.n(3))
+					body["timeCreated"] = "2001-02-03T04:05:06Z"
 					body["size"] = "1"
 					body["name"] = "renamed"
 					body["bucket"] = "elsewhere"
